@@ -63,4 +63,9 @@ TEXTS = {
         "level_text": "Exploration, exhaustive where stated: all 2^16 contents x channels x values of four 16-bit packed pixel types; every (first bit, width) static and dynamic channel reference in 8/16/32/64-bit carriers; 12 bit-aligned pixel types (1..40 bits) x 9 operations x 20k (400k) seeded scenarios in guard-page memory of exactly the occupied bytes, compared bit-for-bit with a model; iterator +n/-n/distance/ordering for every (byte, bit offset) and n in [-48,48].",
         "level_note": "The model buffer is maintained with plain shifts and masks on bytes, independent of GIL's carriers.",
     },
+    "C12": {
+        "technique": "rapidcheck-generated (format, supported pixel type, shape, view organisation, contents, destination/source device, writer options) round trips: write_view then read_image compared pixel-by-pixel with the source view",
+        "level_text": "Exploration: 40k (quick) / 600k (thorough) round trips over the 36 (format, pixel type) pairs of the write-support tables, widths covering every padding residue (BMP mod 4, 1/2/4-bit rows mod 8, TIFF tile edges 16/32 with exact multiples), organisations whole/sub-view/sub-sampled/flipped/transposed, four content kinds, file name / FILE* / std stream on both the write and the read side (optionally crossing them), TIFF none/LZW/deflate/packbits x strips/tiles.",
+        "level_note": "Temporary files live in the check's build directory. libpng/libjpeg/libtiff are trusted to be inverse to themselves; GIL's use of them is what is exercised.",
+    },
 }
